@@ -153,6 +153,25 @@ STRENGTHENED = {
     'C09-w6-c09-m2': 'the same requests from a child interpreter whose filesystem encoding is ASCII',
     'C09-w6-c09-m3': 'a listing that outlasts read_timeout_s as a whole while a frozen stream is released in the middle of it',
     'C10-w6-c10-m2': 'a rejected file inside a directory push',
+    'C11-w6-c11-m1': 'a rejected multi-WRITE push whose device stops acknowledging after its FAIL is on the wire (eager device, end-of-stream / foreign traffic)',
+    'C12-w6-c12-m2': 'command output that is itself a well-formed packet header, with a timeout between header and payload',
+    'C12-w6-c12-m3': 'reported by C06 (generator left over from the previous connection) and C14',
+    'C14-w6-c14-m1': 'a third thread that closes and reconnects in the line-level DFS',
+    'C14-w6-c14-m2': 'locks acquired with a timeout (acquire(True, 0) does not wait); opens with transport_timeout_s 0 / -1',
+    'C14-w6-c14-m3': 'a stream kept open across every other public operation (root, reboot, stat, list, pull, push, refused OPEN, reconnects), then more opens',
+    'C15-w6-c15-m2': 'harness robustness: a destination garbled by interleaved writes is a command the device does not know, not a KeyError',
+    'C15-w6-c15-m3': 'short writes on a slow transport: a buffer needs longer than the transport timeout although no single call does',
+    'C16-w6-c16-m1': 'values sent into streaming_shell\'s generator (send / asend)',
+    'C16-w6-c16-m2': 'callbacks that are falsy objects',
+    'C16-w6-c16-m3': 'operations on a device that is not connected, paired (local paths that exist or not); also C13',
+    'C17-w6-c17-m3': 'a key path that is itself a symbolic link',
+    'C18-w6-c18-m1': 'the peer aborts the connection (RST): close() twice, then connect() again',
+    'C18-w6-c18-m2': 'a read without a timeout waits for a peer that stays silent longer than the connect timeout',
+    'C19-w6-c19-m1': 'projection accepts any queue container',
+    'C19-w6-c19-m2': 'other store objects are created, filled and cleared while a history runs',
+    'C19-w6-c19-m3': 'hours of (virtual) wall-clock time pass between the operations of a history',
+    'C20-w6-c20-m1': 'writes of 16 .. 70 KB with short transfers; clause WritesAPrefix',
+    'C20-w6-c20-m2': 'a read that timed out with part of the data (USBErrorTimeout.received), then close, connect, read; per-connection byte names',
     'C03-c03-m1': 'corruption sweep also over a payload whose genuine checksum is 0 (all zero bytes) and over 0xFF bytes',
 }
 
